@@ -497,6 +497,22 @@ pub fn gen_rational_params(rng: &mut Rng, budget: u64) -> Value {
     json!({"a": gen_e(rng, &ab), "b": gen_e(rng, &ab), "g": gen_e(rng, &g), "w": gen_e(rng, &w)})
 }
 
+fn frontier_game(r: &mut Rng) -> Tree {
+    use crate::tree::{Num, PKid};
+    let leaf = |r: &mut Rng| Tree::T { pay: Num::I(r.range(-3, 3)) };
+    let two = |r: &mut Rng| Tree::P { pl: 2, info: "q".into(), kids: (0..2).map(|j| PKid { a: format!("q{j}"), t: leaf(r) }).collect() };
+    Tree::P {
+        pl: 1,
+        info: "r".into(),
+        kids: (0..4)
+            .map(|j| PKid {
+                a: format!("r{j}"),
+                t: Tree::P { pl: 1, info: format!("s{j}"), kids: (0..2).map(|k| PKid { a: format!("s{k}"), t: two(r) }).collect() },
+            })
+            .collect(),
+    }
+}
+
 pub fn gen_run(args: &Args) {
     let seed = args.num("seed", 1);
     let n = args.num("n", 100);
@@ -508,6 +524,11 @@ pub fn gen_run(args: &Args) {
         let mut t = tree::gen_tree(&mut r, &small_cfg(id));
         tree::shorten(&mut t);
         label_chance(&mut t);
+        if !only_vanilla_full && id % 13 == 5 {
+            // a game whose parallel passes cut a real frontier with two threads (target 6): player one moves twice
+            // (4 then 2 actions), then player two in one infoset - the task queue of one pass is non-empty
+            t = frontier_game(&mut r);
+        }
         let budget = if only_vanilla_full { 1 + id % 3 } else { id % 4 };
         let meth = if only_vanilla_full { "Full" } else { METHODS[((id / 4) % 3) as usize] };
         let par = if only_vanilla_full { preset("vanilla") } else { gen_rational_params(&mut r, budget) };
